@@ -11,3 +11,18 @@ Definition run_io (c : bool * (bool * bool * bool) * nat * list op) : V :=
     let o := snd (run u {| has_all := a; has_read := r; has_send := s |} (tid t) ops) in
     VL [vlist vtext (delivered o); vlist vtext (wire o); vlist enc_ev (events o); vlist vnat (returns o)]
   end.
+
+(** the same with the log attributes reassigned in between (they are looked up at every call) *)
+Inductive xop := XOp (o : op) | XLogs (a r s : bool).
+Fixpoint run_x (u : bool) (t : transport) (L : logs) (st : cst (if u then utf8_codec else null_codec) * out) (ops : list xop)
+  : cst (if u then utf8_codec else null_codec) * out :=
+  match ops with
+  | [] => st
+  | XOp o :: r => run_x u t L (step u L t st o) r
+  | XLogs a b c :: r => run_x u t {| has_all := a; has_read := b; has_send := c |} st r
+  end.
+Definition run_iox (c : bool * (bool * bool * bool) * nat * list xop) : V :=
+  match c with (u, (a, r, s), t, ops) =>
+    let o := snd (run_x u (tid t) {| has_all := a; has_read := r; has_send := s |} (cinit (if u then utf8_codec else null_codec), out0) ops) in
+    VL [vlist vtext (delivered o); vlist vtext (wire o); vlist enc_ev (events o); vlist vnat (returns o)]
+  end.
